@@ -12,11 +12,14 @@ TUS = base.TUS; SHIMS = base.SHIMS; NATIVE_TUS = base.NATIVE_TUS
 FUNCTIONS = ['StepScript(ScriptExecutionEnvironment&,...): push-size, op-count, stack-size checks', 'InterpreterEnv::InterpreterEnv (script-size check)', 'StepScript(InterpreterEnv&) script switch (op-count reset)']
 ASSUMPTIONS = base.ASSUMPTIONS + ['multisig obligations use the signature oracle of C02 (uninterpreted)']
 OUTSIDE = ['limits reached through multi-step histories (covered inductively by the one-step pre-state being arbitrary)']
-BOUNDS = 'push payload 519/520/521 (PUSHDATA2/4) executed and unexecuted; stack+alt totals 998..1001 reached by 14 growing opcodes with 0..1000 items on either stack; nOpCount symbolic 0..201 for every opcode above OP_16; script sizes 9999/10000/10001 x 3 script versions'
+BOUNDS = 'numeric operands of 4 / 5 bytes in every position of every arithmetic opcode, 4 / 5 / 6 bytes for CLTV / CSV; push payload 519/520/521 (PUSHDATA2/4) executed and unexecuted; stack+alt totals 998..1001 reached by 14 growing opcodes with 0..1000 items on either stack; nOpCount symbolic 0..201 for every opcode above OP_16; script sizes 9999/10000/10001 x 3 script versions'
 
 def setup(E): C02.setup(E)
 
 GROW = {0x51: 0, 0x00: 0, 0x76: 1, 0x6e: 2, 0x6f: 3, 0x70: 4, 0x73: 1, 0x74: 0, 0x78: 2, 0x7d: 2, 0x82: 1, 0x6c: 0, 0x6b: 1, 0x4f: 0, 0x01: 0, 0x75: 1, 0x7c: 2}   # opcode -> arity
+
+NUMERIC_OPS = {R.OP[n] for n in ('OP_1ADD', 'OP_1SUB', 'OP_NEGATE', 'OP_ABS', 'OP_NOT', 'OP_0NOTEQUAL', 'OP_ADD', 'OP_SUB', 'OP_BOOLAND', 'OP_BOOLOR', 'OP_NUMEQUAL', 'OP_NUMEQUALVERIFY', 'OP_NUMNOTEQUAL',
+                                   'OP_LESSTHAN', 'OP_GREATERTHAN', 'OP_LESSTHANOREQUAL', 'OP_GREATERTHANOREQUAL', 'OP_MIN', 'OP_MAX', 'OP_WITHIN', 'OP_PICK', 'OP_ROLL')}
 
 def obligations(tier, seed):
     obs = []
@@ -25,6 +28,7 @@ def obligations(tier, seed):
         if kind == 'step':
             if kw['op'] < 0x4c: kw.setdefault('plen', kw['op'])
             kw['name'] = 'step/op%02x/sv%d/st%s/pad%d/altpad%d/alt%d/vf%s/pl%s' % (kw['op'], kw['sv'], '.'.join(map(str, kw['lens'])), kw.get('pad', 0), kw.get('altpad', 0), kw['alt'], '%d-%s' % kw['vf'], kw.get('plen', ''))
+            if kw['checker']: kw['name'] += '/ck%d' % kw['checker']
         obs.append(kw)
     for sv in (R.BASE, R.WITNESS_V0, R.TAPSCRIPT):
         # 520-byte element limit
@@ -48,6 +52,16 @@ def obligations(tier, seed):
             k = base.ARITY.get(o, 0)
             add(op=o, sv=sv, lens=tuple([1] * k))
             add(op=o, sv=sv, lens=tuple([1] * k), vf=(1, 0))
+        # numeric operand size: 4 bytes accepted / 5 refused for the arithmetic opcodes, 5 accepted / 6 refused for the lock-time opcodes (all operand bytes symbolic)
+        for o in sorted(NUMERIC_OPS):
+            k = base.ARITY.get(o, 0)
+            if k == 0: continue
+            for L in (4, 5):
+                for pos in range(k):                       # the long operand in each position, the others one byte
+                    add(op=o, sv=sv, lens=tuple(L if i == pos else 1 for i in range(k)))
+        for o in sorted(base.LOCK):
+            for L in (4, 5, 6):
+                for ck in (0, 1): add(op=o, sv=sv, lens=(L,), checker=ck)
         # multisig key count: 19/20/21 keys, and its charge on the operation count (nOpCount symbolic), followed by one more counted opcode
         if sv != R.TAPSCRIPT:
             for o in (0xae, 0xaf):
